@@ -18,6 +18,7 @@ RULE = (
     "actually rewrote (compiled problem differs from the original); distinct by (problem, compiler, compiled plan)."
 )
 SHARDS = {"quick": 16, "thorough": 16}
+CASE_TIMEOUT_S = 30  # CPU seconds per case; DNF / powerset compilations that explode are inconclusive, not judged
 
 
 def check(ctx, case, k=3, max_nodes=1500):
